@@ -126,7 +126,11 @@ def client_login_preamble(ctx, sn, path, P):
     id_s = ident_choice(path, ('fld', ids, 'server'), ser_pk(pkstar))
     if id_u is None or id_s is None:
         return None
-    req = ser(ctx, sn, DECODERS['CredentialRequest'], ('fld', Sym('self'), 'credential_request'))
+    fin = api_summary(ctx, sn, 'clog_finish')
+    req_field = role_term(ctx, sn, fin, 1, Sym('self'), 'field:CredentialRequest')
+    if req_field is None:
+        return None
+    req = ser(ctx, sn, DECODERS['CredentialRequest'], req_field)
     resp = ser(ctx, sn, DECODERS['CredentialResponse'], Sym('response'))
     if req is None or resp is None:
         return None
